@@ -113,6 +113,8 @@ Definition dec_stage (v : val) : option stage :=
       | 8 => omap keyby_stage (lib_kf c)
       | 9 => omap mapvalues_stage (lib_vf c)
       | 10 => omap flatmapvalues_stage (lib_gv c)
+      | 12 => Some (SSilentMap (fun pc => if ispair pc then pkey pc else pc))     (* keys() *)
+      | 13 => Some (SSilentMap (fun pc => if ispair pc then pval pc else pc))     (* values() *)
       | 11 => if (flag =? 0) || (c =? 1) || (c =? 2) || (c =? 3) then omap samplebykey_stage (lib_kept c) else None
       | _ => None
       end
